@@ -1,4 +1,6 @@
 import OdcGeo.Model.C06
+import OdcGeo.Model.C06Dask
+import OdcGeo.Model.C06Ops
 namespace OdcGeo.C06.Drv
 open OdcGeo OdcGeo.IO OdcGeo.C06
 
@@ -42,8 +44,152 @@ def fmtChunk (c : Chunk Nat) : String :=
   s!"next={c.next} credits={c.credits} data={String.join (c.data.map hex2)} left={String.join (c.left.map hex2)} " ++
   s!"parts={fmtList fmtPart c.parts} obs={fmtObs c.observed} final={fmtBool c.isFinal}"
 
+/-- bags `;`-separated, partitions `/`-separated, chunk sizes `,`-separated, `_` = partition without chunks;
+payload offsets and chunk ids run over the whole stream -/
+def parseBags (s : String) : Option (List (List (List (List Nat × Int)))) := do
+  if s = "-" then return []
+  let bagsSz ← (s.splitOn ";").mapM fun b =>
+    (b.splitOn "/").mapM fun p => if p = "_" then some [] else (p.splitOn ",").mapM parseNat?
+  let step := fun (acc : List (List Nat × Int) × Nat × Nat) (sz : Nat) =>
+    (acc.1 ++ [(payload acc.2.1 sz, (acc.2.2 : Int))], acc.2.1 + sz, acc.2.2 + 1)
+  let (bags, _, _) := bagsSz.foldl (fun (accB : List (List (List (List Nat × Int))) × Nat × Nat) bag =>
+    let (parts, off, cid) := bag.foldl (fun (accP : List (List (List Nat × Int)) × Nat × Nat) sizes =>
+      let (chunks, off', cid') := sizes.foldl step ([], accP.2.1, accP.2.2)
+      (accP.1 ++ [chunks], off', cid')) ([], accB.2.1, accB.2.2)
+    (accB.1 ++ [parts], off, cid)) ([], 0, 0)
+  pure bags
+
+def fmtRun (r : Res (Out Nat × List (Part Nat) × List (Nat × Int))) : String :=
+  match r with
+  | .error e => e.toStr
+  | .ok (out, ws, obs) =>
+    match out with
+    | .chunk c => s!"CHUNK {fmtChunk c} writes={fmtList fmtPart (sortParts ws)} seen={fmtObs obs}"
+    | .written _ fin =>
+      s!"WRITTEN writes={fmtList fmtPart (sortParts ws)} final={fmtList (fun (p : Part Nat) => toString p.id) fin} seen={fmtObs obs}"
+
+def parseTree1 (tree : String) (off cid : Nat) : Option (Tree Nat × Nat × Nat) := do
+  let (t, rest, off', cid') ← parseTree (tree.splitOn ";") off cid
+  if rest ≠ [] then none
+  pure (t, off', cid')
+
+def fmtIds (ps : List (Part Nat)) : String := fmtList (fun (p : Part Nat) => toString p.id) ps
+
+def fmtPost (p : MergePost Nat) : String :=
+  s!"result[{fmtChunk p.result}] writes={fmtList fmtPart p.writes} lhs[{fmtChunk p.lhsAfter}] rhs[{fmtChunk p.rhsAfter}]"
+
 def run (args : List String) : Option String :=
   match args with
+  | ["flushd", minWrite, minPart, maxPart, spill, wpc, markFinal, lp, fin, tree] => do
+    -- MPUChunk.flush called directly on the root of a merge tree, with every keyword form
+    let minWrite ← parseNat? minWrite; let minPart ← parseNat? minPart; let maxPart ← parseNat? maxPart
+    let spill ← parseNat? spill; let wpc ← parseNat? wpc; let markFinal ← parseBool? markFinal
+    let lp ← parseOpt? parseNat? lp; let fin ← parseBool? fin
+    let (t, _, _) ← parseTree1 tree 0 0
+    let W : Writer := ⟨minWrite, minPart, maxPart⟩
+    match eval ⟨some W, spill, wpc, markFinal⟩ t.leaves t 0 with
+    | .error e => pure ("EVAL-" ++ e.toStr)
+    | .ok (root, ws0) =>
+      let pre := s!"root[{fmtChunk root} keep={root.lhsKeep}] before={fmtList fmtPart (sortParts ws0)}"
+      match flushFull W root lp fin with
+      | .error e => pure s!"{pre} flush: {e.toStr}"
+      | .ok r =>
+        pure s!"{pre} flush: bytes={r.bytesWritten} writes={fmtList fmtPart r.writes} parts={fmtIds r.parts} finalised={fmtBool r.finalised} after[{fmtChunk r.after}]"
+  | ["mwret", minWrite, minPart, maxPart, spill, wpc, markFinal, spill2, tree] => do
+    -- MPUChunk.maybe_write called directly on the root of a merge tree: return value, writer call, state afterwards
+    let minWrite ← parseNat? minWrite; let minPart ← parseNat? minPart; let maxPart ← parseNat? maxPart
+    let spill ← parseNat? spill; let wpc ← parseNat? wpc; let markFinal ← parseBool? markFinal
+    let spill2 ← parseNat? spill2
+    let (t, _, _) ← parseTree1 tree 0 0
+    let W : Writer := ⟨minWrite, minPart, maxPart⟩
+    match eval ⟨some W, spill, wpc, markFinal⟩ t.leaves t 0 with
+    | .error e => pure ("EVAL-" ++ e.toStr)
+    | .ok (root, _) =>
+      match maybeWriteRet W spill2 root with
+      | .error e => pure e.toStr
+      | .ok (c, ws, n) => pure s!"ret={n} writes={fmtList fmtPart ws} after[{fmtChunk c}]"
+  | ["frhs", minWrite, minPart, maxPart, spill, wpc, markFinal, hasW, extra, tree] => do
+    -- MPUChunk.flush_rhs called directly
+    let minWrite ← parseNat? minWrite; let minPart ← parseNat? minPart; let maxPart ← parseNat? maxPart
+    let spill ← parseNat? spill; let wpc ← parseNat? wpc; let markFinal ← parseBool? markFinal
+    let hasW ← parseBool? hasW; let extra ← parseNat? extra
+    let (t, _, _) ← parseTree1 tree 0 0
+    let W : Writer := ⟨minWrite, minPart, maxPart⟩
+    match eval ⟨some W, spill, wpc, markFinal⟩ t.leaves t 0 with
+    | .error e => pure ("EVAL-" ++ e.toStr)
+    | .ok (root, _) =>
+      match flushRhsRet (if hasW then some W else none) root (ftrBytes extra) with
+      | .error e => pure e.toStr
+      | .ok (c, ws, n) => pure s!"ret={n} writes={fmtList fmtPart ws} after[{fmtChunk c}]"
+  | ["rerun1", minWrite, minPart, maxPart, spill, wpc, markFinal, treeL, treeR] => do
+    -- one merge task, result and writer calls only (for code that does not touch its inputs)
+    let minWrite ← parseNat? minWrite; let minPart ← parseNat? minPart; let maxPart ← parseNat? maxPart
+    let spill ← parseNat? spill; let wpc ← parseNat? wpc; let markFinal ← parseBool? markFinal
+    let (tl, off, cid) ← parseTree1 treeL 0 0
+    let (tr, _, _) ← parseTree1 treeR off cid
+    let W : Writer := ⟨minWrite, minPart, maxPart⟩
+    let cfg : Cfg := ⟨some W, spill, wpc, markFinal⟩
+    let total := tl.leaves + tr.leaves
+    match eval cfg total tl 0, eval cfg total tr tl.leaves with
+    | .ok (l, _), .ok (r, _) =>
+      match mergeAndSpill cfg.writer cfg.spill l r with
+      | .error e => pure ("FIRST-" ++ e.toStr)
+      | .ok (m, ws) => pure s!"result[{fmtChunk m}] writes={fmtList fmtPart ws}"
+    | _, _ => pure "EVAL-ERR"
+  | ["rerun", minWrite, minPart, maxPart, spill, wpc, markFinal, treeL, treeR] => do
+    -- one merge task executed twice on the same input objects
+    let minWrite ← parseNat? minWrite; let minPart ← parseNat? minPart; let maxPart ← parseNat? maxPart
+    let spill ← parseNat? spill; let wpc ← parseNat? wpc; let markFinal ← parseBool? markFinal
+    let (tl, off, cid) ← parseTree1 treeL 0 0
+    let (tr, _, _) ← parseTree1 treeR off cid
+    let W : Writer := ⟨minWrite, minPart, maxPart⟩
+    let cfg : Cfg := ⟨some W, spill, wpc, markFinal⟩
+    let total := tl.leaves + tr.leaves
+    match eval cfg total tl 0, eval cfg total tr tl.leaves with
+    | .ok (l, _), .ok (r, _) =>
+      match mergeTwice cfg.writer cfg.spill l r with
+      | .error e => pure ("FIRST-" ++ e.toStr)
+      | .ok (p1, .error e) => pure s!"first: {fmtPost p1} second: {e.toStr}"
+      | .ok (p1, .ok p2) => pure s!"first: {fmtPost p1} second: {fmtPost p2}"
+    | _, _ => pure "EVAL-ERR"
+  | ["tokeq", minWrite, minPart, spillA, wpcA, finalA, treeA, spillB, wpcB, finalB, treeB] => do
+    -- do two sections (roots of two evaluations, same lhs_keep) get the same dask token?
+    let minWrite ← parseNat? minWrite; let minPart ← parseNat? minPart
+    let spillA ← parseNat? spillA; let wpcA ← parseNat? wpcA; let finalA ← parseBool? finalA
+    let spillB ← parseNat? spillB; let wpcB ← parseNat? wpcB; let finalB ← parseBool? finalB
+    let (ta, _, _) ← parseTree1 treeA 0 0
+    let (tb, _, _) ← parseTree1 treeB 0 0
+    let W : Writer := ⟨minWrite, minPart, minPart + 100000⟩
+    match eval ⟨some W, spillA, wpcA, finalA⟩ ta.leaves ta 0, eval ⟨some W, spillB, wpcB, finalB⟩ tb.leaves tb 0 with
+    | .ok (a, _), .ok (b, _) =>
+      -- part receipts of the recording writer carry the part number only
+      let strip := fun (c : Chunk Nat) => ({ c with parts := c.parts.map fun (p : Part Nat) => (⟨p.id, []⟩ : Part Nat) } : Chunk Nat)
+      let ta := (strip a).tokenAsFound
+      let tb := (strip b).tokenAsFound
+      pure (fmtBool (ta.1 == tb.1 && ta.2.1 == tb.2.1 && ta.2.2.1 == tb.2.2.1 && ta.2.2.2.1 == tb.2.2.2.1 &&
+        ta.2.2.2.2.1 == tb.2.2.2.2.1 && ta.2.2.2.2.2.1 == tb.2.2.2.2.2.1 && ta.2.2.2.2.2.2 == tb.2.2.2.2.2.2))
+    | _, _ => pure "EVAL-ERR"
+  | ["shape", split, nparts] => do
+    -- the merge tree `from_dask_bag(split_every=split)` per bag + collate builds for bags with these partition counts
+    let split ← parseNat? split
+    let nparts ← parseList? parseNat? nparts
+    let bags : List (List (List (List Nat × Int))) := nparts.map fun n => List.replicate n [([], 0)]
+    match mpuWriteTree split bags with
+    | none => pure "NONE"
+    | some t => pure t.skel
+  | ["mpuw", hasW, minWrite, minPart, maxPart, spill, wpc, hdr, ftr, bags] => do
+    -- the public entry point from its bags: tree derived in the model (split_every = 4)
+    let hasW ← parseBool? hasW
+    let minWrite ← parseNat? minWrite; let minPart ← parseNat? minPart; let maxPart ← parseNat? maxPart
+    let spill ← parseNat? spill; let wpc ← parseNat? wpc
+    let hdr ← parseOpt? parseNat? hdr; let ftr ← parseOpt? parseNat? ftr
+    let bags ← parseBags bags
+    let w : Option Writer := if hasW then some ⟨minWrite, minPart, maxPart⟩ else none
+    let mkH := hdr.map (fun n => fun (_ : List (Nat × Int)) => hdrBytes n)
+    let mkF := ftr.map (fun n => fun (_ : List (Nat × Int)) => ftrBytes n)
+    match mpuWrite w spill wpc bags mkH mkF with
+    | none => pure "NONE"
+    | some r => pure (fmtRun r)
   | ["run", hasW, minWrite, minPart, maxPart, spill, wpc, hdr, ftr, tree] => do
     let hasW ← parseBool? hasW
     let minWrite ← parseNat? minWrite; let minPart ← parseNat? minPart; let maxPart ← parseNat? maxPart
